@@ -114,13 +114,16 @@ def oracle(ci, cls, name, lhs, rhs, extra, obs, ars, outcome, rng):
         # F(a + a' + 0) == F(a) + F(a') + 0 : the image of a formal sum is the sum of the images
         from discopy import monoidal
         da, db = ci.interp(cls, extra[1]), ci.interp(cls, extra[2])
-        s = monoidal.Sum([da, db], da.dom, da.cod)
-        want = monoidal.Sum([functor(da), functor(db)], functor(da.dom), functor(da.cod))
-        empty = monoidal.Sum([], da.dom, da.cod)
-        if functor(s) != want:
-            return "F(a + b) != F(a) + F(b)", False
-        if functor(empty) != monoidal.Sum([], functor(da.dom), functor(da.cod)):
-            return "F(empty sum) is not the empty sum on the image types", False
+        try:
+            s = monoidal.Sum([da, db], da.dom, da.cod)
+            want = monoidal.Sum([functor(da), functor(db)], functor(da.dom), functor(da.cod))
+            empty = monoidal.Sum([], da.dom, da.cod)
+            if functor(s) != want:
+                return "F(a + b) != F(a) + F(b)", False
+            if functor(empty) != monoidal.Sum([], functor(da.dom), functor(da.cod)):
+                return "F(empty sum) is not the empty sum on the image types", False
+        except Exception as exc:   # noqa: the images of two parallel diagrams are parallel
+            return "F(a) + F(b) could not be formed for parallel a, b: %s: %s" % (type(exc).__name__, exc), False
         return None, False
     if extra and extra[0] == "dom_cod":
         info = extra[1]
